@@ -48,6 +48,24 @@ def ecc_pub_raw(pem: bytes) -> bytes:
     return pn.x.to_bytes(cs, "big") + pn.y.to_bytes(cs, "big")
 
 
+def key_tokens(case) -> tuple:
+    """(rot type name, key tokens for the compiled Spec.rotkh): raw key NUMBERS of the configured root keys"""
+    from cryptography import x509
+    ct = case["cert"]
+    if ct["kind"] == "v1":
+        toks = []
+        for r in C1.RSA_VARIANTS[ct["id"]][0]:
+            pn = x509.load_der_x509_certificate(C1._file(r)).public_key().public_numbers()
+            toks.append(f"r:{pn.n}:{pn.e}")
+        return "cert_block_1", ",".join(toks)
+    toks = []
+    for i in range(ct["n"]):
+        pem = C1._file(C1.KC_ECC / f"ec_secp{ct['curve']}r1_cert{i}.pem")
+        pn = x509.load_pem_x509_certificate(pem).public_key().public_numbers()
+        toks.append(f"e:{ct['curve']}:{pn.x}:{pn.y}")
+    return "cert_block_21", ",".join(toks)
+
+
 def rkth_v21(spec) -> bytes:
     cv = spec["curve"]
     h = hashlib.sha256 if cv == 256 else hashlib.sha384
@@ -232,7 +250,9 @@ def eval_case(case, row):
         if got != ("ok", rk):
             fails.append(("MasterBootImage.rkth differs from the documented root-key-table hash of the configured keys",
                           got[1].hex() if got[0] == "ok" and got[1] else got, rk.hex()))
-    obs["env"] = rom_env(case, row, rk)
+    obs["env"] = rom_env(case, row, rk)       # rkth is replaced by the compiled Spec.rotkh value in the main process
+    obs["rk_py"] = rk.hex() if rk else None
+    obs["keys"] = key_tokens(case) if "cert" in case else None
     obs["regions"] = regions(case, row, obs, e)
     rng = random.Random(case.get("flip_seed", 0))
     flips = []
@@ -315,6 +335,11 @@ def run(ck):
         d = vcore.Driver(drv.exe)
         ck.drivers.append(d)
         drivers.append(d)
+    # ---- the fused RKTH: the documented construction (compiled Spec.rotkh of C03) over the raw key numbers
+    srk = ck.stream("rkth_spec", "MasterBootImage.rkth and the harness' own table hash vs the compiled Spec.rotkh (Spec/Rotkh.lean) over the raw key numbers; "
+                    "the ROM model is then given the Spec value; non-trivial = distinct key set")
+    keysets = sorted({obs["keys"] for _, out in results for _, obs, _ in out if obs.get("keys")})
+    spec_rk = dict(zip(keysets, drv.batch([f"rotkh {t} {k}" for t, k in keysets])))
     jobs = []
     for ri, out in results:
         row = ROWS[ri]
@@ -325,6 +350,12 @@ def run(ck):
             if "export" not in obs:
                 continue
             e = bytes.fromhex(obs["export"])
+            if obs.get("keys"):
+                v = spec_rk[obs["keys"]]
+                srk.note(obs["keys"])
+                srk.compare({"keys": obs["keys"][1][:200]}, "ok:" + obs["rk_py"], v, "compiled Spec.rotkh differs from MasterBootImage.rkth / the table hash recomputed in the harness")
+                if v.startswith("ok:"):
+                    obs["env"] = obs["env"].replace("rkth=" + obs["rk_py"], "rkth=" + v[3:])
             lines = [f"rom {obs['env']} data={e.hex()}"]
             imgs = [e]
             for name, pos, bit in obs["flips"]:
